@@ -66,6 +66,9 @@ func (c *Ctx) Rule(id, doc string, body func()) {
 				c.add(id, "anchor:"+a.what, "", vAnchor, "the construct that carried this guarantee is gone or renamed: "+a.what+" (nothing can be concluded; not a behavioural claim)")
 				return
 			}
+			if _, ok := r.(abortRule); ok {
+				return // a Must failed: the violation is recorded, the rest of the rule has nothing to look at
+			}
 			c.add(id, "panic", "", vPanic, fmt.Sprint(r))
 		}
 	}()
@@ -221,6 +224,30 @@ func (c *Ctx) Std(path, recv, name string) *funcObj {
 		panic(anchorErr{"std " + path + "." + recv + "." + name})
 	}
 	return o
+}
+
+type abortRule struct{}
+
+// Must is for a safeguard the property itself depends on (a check that a repair introduced, the one place a filter is
+// applied): when it cannot be found the safeguard is gone, which is a violation and not merely an unresolved anchor.
+// Used sparingly — where the catalogue of seeded changes shows the construct disappears exactly when the protection is
+// removed; everything else uses Need, whose failure does not fail the check.
+func (c *Ctx) Must(cond bool, key string, f *Func, n ast.Node, what string) {
+	if cond {
+		return
+	}
+	c.Fail(key, f, n, "%s", what)
+	panic(abortRule{})
+}
+
+// MustPin is Pin for a role whose disappearance is itself the violation (a path that lost its safeguard).
+func (c *Ctx) MustPin(role string, got, min int, what string) {
+	c.pins[c.rule+"/"+role] = [2]int{got, min}
+	if got < min {
+		c.add(c.rule, "pin:"+role, "", vViolation, fmt.Sprintf("%d instances of role %q found, %d confirmed by hand: %s", got, role, min, what))
+	} else {
+		c.add(c.rule, "pin:"+role, "", vOK, fmt.Sprintf("%d instances (pin %d)", got, min))
+	}
 }
 
 // Need panics with an anchor error when cond is false.
